@@ -2,9 +2,14 @@
 
 proof  : lean/Pyunicorn/Properties/C15.lean (shuffle / rank remapping are row
          permutations for every permutation / every ranked array / every number
-         of refinement steps; |z e^{i phi}| = |z| over every call history, in
-         place or copying; twin lists = definition; twin walk invariants for
-         every draw stream)
+         of refinement steps; Fourier and 'true spectrum' surrogates have the
+         original amplitude spectrum — phase multiplication over every call
+         history composed with the real DFT pair on ZMod n and its round trip;
+         twin lists = definition; twin walk invariants for every draw stream;
+         twin_surrogates as a whole; the loop-level model of the kernels —
+         np.empty work arrays re-used across series, nR bookkeeping, running
+         embedding index, index arithmetic regenerated from surrogates.py and
+         numerics.pyx by translate/gen_arith.py — equals the abstract model)
 tie    : correspondence of lean/Pyunicorn/Model/Surrogates.lean with the real
          code on the same inputs, with the random choices *recorded or fed*:
          the module globals `random` / `np` of surrogates.py and `random` of the
@@ -31,6 +36,7 @@ import numpy as np
 from . import common
 
 TOL = 1e-9
+HAVE_DRIVER = True
 
 
 # --------------------------------------------------------------------------
@@ -38,6 +44,8 @@ TOL = 1e-9
 # --------------------------------------------------------------------------
 
 def enc_num(x):
+    if not isinstance(x, Fraction) and not np.isfinite(x):
+        return "nan"        # uninitialised memory / overflow of the code under test: never a model value
     f = x if isinstance(x, Fraction) else Fraction(float(x))
     return str(f.numerator) if f.denominator == 1 else f"{f.numerator}/{f.denominator}"
 
@@ -81,9 +89,16 @@ class NpRandomProxy:
         self.perms, self.phases, self.gauss = [], [], []
 
     def shuffle(self, row):
-        p = self.rs.permutation(len(row))
-        row[:] = row[p].copy()
-        self.perms.append([int(i) for i in p])
+        # numpy's own in-place shuffle runs on the view it is handed; the permutation it
+        # applied is recovered by replaying the same generator state on an index array
+        # (the legacy Fisher-Yates loop draws the same swaps whatever the content)
+        state = self.rs.get_state()
+        self.rs.shuffle(row)
+        twin = np.random.RandomState()
+        twin.set_state(state)
+        idx = np.arange(len(row))
+        twin.shuffle(idx)
+        self.perms.append([int(i) for i in idx])
 
     def uniform(self, low=0.0, high=1.0, size=None):
         ph = self.rs.uniform(low=low, high=high, size=size)
@@ -101,9 +116,10 @@ class NpRandomProxy:
 
 class FftProxy:
     def __init__(self):
-        self.rfft_out, self.irfft_in, self.irfft_out = [], [], []
+        self.rfft_in, self.rfft_out, self.irfft_in, self.irfft_out = [], [], [], []
 
     def rfft(self, a, *args, **kw):
+        self.rfft_in.append(np.array(a, copy=True))
         r = np.fft.rfft(a, *args, **kw)
         self.rfft_out.append(r.copy())
         return r
@@ -194,7 +210,48 @@ def phase_mode():
 # generators
 # --------------------------------------------------------------------------
 
-def gen_data(rng, nprng, quick, kinds=("int", "dyadic", "float", "periodic")):
+def gen_data(rng, nprng, quick, kinds=("int", "dyadic", "float", "periodic"), variants=True):
+    """base data (float64, C order) and, with `variants`, the form in which the caller hands it
+    over: float32 / int64 copies, non-contiguous or Fortran-ordered views, exact power-of-two
+    rescalings.  Returns (kind, array, tags)."""
+    kind, d = gen_base(rng, nprng, quick, kinds)
+    tags = []
+    if not variants:
+        return kind, d, tags
+    r = rng.random()
+    if r < 0.12:
+        e = rng.choice([-300, -100, -30, 30, 100, 300])
+        d = d * (2.0 ** e)
+        tags.append(f"scaled:2^{e}")
+    r = rng.random()
+    if r < 0.10:
+        with np.errstate(all="ignore"):
+            d32 = d.astype(np.float32)
+        if np.isfinite(d32).all():
+            d = d32
+            tags.append("float32")
+    elif r < 0.16 and kind in ("int", "periodic") and not tags and np.all(d == np.round(d)):
+        d = d.astype(np.int64)
+        tags.append("int64")
+    r = rng.random()
+    if r < 0.08:
+        big = np.zeros((d.shape[0], 2 * d.shape[1]), dtype=d.dtype)
+        big[:, ::2] = d
+        d = big[:, ::2]
+        tags.append("strided-view")
+    elif r < 0.16:
+        d = np.asfortranarray(d)
+        tags.append("fortran-order")
+    return kind, d, tags
+
+
+def tol_for(data):
+    """relative tolerance of the spectrum comparisons: double precision, or single precision when
+    the caller's array is float32 (numpy.fft then works in complex64)"""
+    return 2e-5 if np.asarray(data).dtype == np.float32 else TOL
+
+
+def gen_base(rng, nprng, quick, kinds):
     kind = rng.choice(kinds)
     N = rng.choice([1, 1, 2, 3, 4])
     n = rng.choice([1, 2, 3, 4, 5, 6, 7, 8, 9, 12, 15, 16, 21, 32] if quick else
@@ -208,9 +265,89 @@ def gen_data(rng, nprng, quick, kinds=("int", "dyadic", "float", "periodic")):
         base = [[rng.randrange(0, 4) for _ in range(per)] for _ in range(N)]
         d = np.array([[base[i][t % per] + (rng.choice([0, 0, 0, 0.125]) if n > 6 else 0)
                        for t in range(n)] for i in range(N)], dtype=float)
+    elif kind == "constant":
+        d = np.array([[rng.choice([0.0, 1.5, -2.0])] * n for _ in range(N)])
+    elif kind == "two-level":
+        d = np.array([[rng.choice([0.0, 1.0]) for _ in range(n)] for _ in range(N)])
     else:
         d = nprng.randn(N, n)
     return kind, d
+
+
+def clone(d):
+    """a fresh array with the caller-side layout of `d` (C, Fortran or strided view)"""
+    if d.flags.c_contiguous:
+        return d.copy()
+    if d.flags.f_contiguous:
+        return np.asfortranarray(d.copy())
+    big = np.zeros((d.shape[0], 2 * d.shape[1]), dtype=d.dtype)
+    big[:, ::2] = d
+    return big[:, ::2]
+
+
+def close_rows(a, b, tol):
+    a, b = np.asarray(a, dtype=float), np.asarray(b, dtype=float)
+    if a.shape != b.shape:
+        return False
+    for x, y in zip(a, b):
+        scale = float(np.abs(y).max()) if y.size else 0.0
+        if not np.all(np.abs(x - y) <= tol * scale) and not np.array_equal(x, y, equal_nan=True):
+            return False
+    return True
+
+
+def _norm_states(hist):
+    """the value of `_normalized` at every Fourier call of a history"""
+    st, out = False, []
+    for h in hist:
+        if h == "normalize":
+            st = True
+        else:
+            out.append(st)
+    return out
+
+
+def gen_rp(rng, n, floats=None):
+    """a RecurrencePlot configuration: scalar series with embedding or a multi-column series taken
+    as is; every metric; every way of fixing the neighbourhoods.  Dyadic data and thresholds, so
+    the recurrence matrix is decided exactly."""
+    kind = rng.choice(["int", "periodic", "dyadic", "two-column"] + (["float"] if floats else []))
+    if kind == "periodic":
+        per = rng.choice([2, 3, 4])
+        base = [rng.randrange(0, 4) for _ in range(per)]
+        ts = np.array([base[t % per] for t in range(n)], dtype=float)
+    elif kind == "int":
+        ts = np.array([rng.randrange(0, 3) for _ in range(n)], dtype=float)
+    elif kind == "two-column":
+        ts = np.array([[rng.randrange(0, 3), rng.randrange(0, 2)] for _ in range(n)], dtype=float)
+    elif kind == "float":
+        ts = floats.rand(n)
+    else:
+        ts = np.array([rng.randrange(0, 17) / 8 for _ in range(n)])
+    kw = {"metric": rng.choice(["supremum", "supremum", "manhattan", "euclidean"])}
+    dim = tau = None
+    if ts.ndim == 1:
+        dim = rng.choice([1, 2, 2, 3])
+        tau = rng.choice([1, 1, 2])
+        if (dim - 1) * tau >= n:
+            dim, tau = 1, 1
+        if rng.random() < 0.85:
+            kw.update(dim=dim, tau=tau)
+    if rng.random() < 0.1:
+        ts = ts.astype(np.float32)
+    variant = rng.choice(["threshold", "threshold", "local_recurrence_rate", "recurrence_rate",
+                          "adaptive_neighborhood_size", "threshold_std"])
+    if variant == "threshold":
+        kw["threshold"] = rng.choice([0.125, 0.5, 0.5, 1.0, 1.5, 4.0])
+    elif variant == "threshold_std":
+        kw["threshold_std"] = rng.choice([0.25, 0.5, 1.0])
+    elif variant == "adaptive_neighborhood_size":
+        kw["adaptive_neighborhood_size"] = rng.choice([0.2, 0.4, 0.6])
+    else:
+        kw[variant] = rng.choice([0.2, 0.4, 0.6])
+    if rng.random() < 0.1 and np.all(np.asarray(ts, dtype=float).std(axis=0) > 0):
+        kw["normalize"] = True
+    return ts, kind, dim, tau, kw, variant
 
 
 def has_ties(a):
@@ -288,22 +425,36 @@ def run(ctx):
     nprng = np.random.RandomState(rng.randrange(2 ** 31))
     quick = ctx.tier == "quick"
     ctx.rule = ("data sets (N 1-4 series, length 1-64, odd and even; integer with ties, dyadic, "
-                "periodic, Gaussian) x generators (white noise, Fourier, AAFT, refined AAFT, twin "
+                "periodic, constant, two-level, Gaussian; float64 / float32 / int64, C / Fortran / strided, "
+                "rescaled by 2^+-30..300) x generators (white noise, Fourier, AAFT, refined AAFT, twin "
                 "surrogates of Surrogates and RecurrencePlot) x histories of 1-4 repeated / "
-                "interleaved calls on one object; twins: dimension 1-3, delay 0-3, dyadic thresholds, "
-                "min_dist 0-8; distinct = distinct (generator, data, parameters, random stream); "
+                "interleaved calls on one object incl. normalize_original_data; twins: dimension 1-5, "
+                "delay 0-6, dyadic thresholds up to 2^17, min_dist 0-40 / default / >= n, kernels on "
+                "random work arrays; RecurrencePlot: all metrics and neighbourhood rules; distinct = distinct (generator, data, parameters, random stream); "
                 "non-trivial = length >= 4 and (for twins) at least one twin pair exists")
     ctx.trusted = common.DEFAULT_TRUSTED + [
-        "numpy.fft.rfft/irfft (round trip at the non-zero, non-Nyquist bins) and numpy.random.shuffle "
-        "(applies a permutation in place): assumed, exercised numerically by the oracle on the unpatched code",
+        "numpy.fft.rfft/irfft compute, up to rounding, the real DFT pair of Lemmas/SurrogatesDFT.lean "
+        "(compared with the explicit sums on every run); numpy.random.shuffle applies a permutation in "
+        "place (recorded and checked on every case); numpy argsort returns a sorting permutation",
         "IEEE double: the products random.random()*N of the fed 20-bit dyadic draws are exact",
     ]
     ctx.assumptions = [
-        "Fourier clauses are partial: the theorem covers the spectrum handed to irfft; that "
-        "rfft(irfft(Z)) = Z off DC/Nyquist is numpy's and only exercised numerically",
+        "Fourier / true-spectrum clauses are stated on the mathematical DFT pair (round trip proved); "
+        "float rounding of numpy.fft and of the complex arithmetic is outside the theorems (relative "
+        "tolerance 1e-9 in correspondence and oracle, 2e-5 for float32 caller arrays)",
         "min_dist >= 0, dimension >= 1, delay >= 0 (negative values are outside the stated domain)",
     ]
-    ctx.proofs()
+    global HAVE_DRIVER
+    HAVE_DRIVER = True
+    try:
+        ctx.proofs()
+    except common.BuildError as e:
+        # the loop-level model no longer builds against the arithmetic regenerated from the
+        # source (or a theorem about it broke the driver's imports): a broken tie, reported;
+        # the failing input is the oracle's to find.  No model answers in this run.
+        ctx.obligation("model and driver build against Generated/ArithC15.lean", "lean-build",
+                       False, str(e)[-1500:])
+        HAVE_DRIVER = False
     mode = phase_mode()
     ctx.count(f"phase-multiplication-mode:{mode}")
 
@@ -316,136 +467,256 @@ def run(ctx):
     # ======================================================================
     # A/B/C: white noise, Fourier, AAFT, refined AAFT — patched correspondence
     # ======================================================================
-    ncase = 400 if quick else 3000
-    struct_bad = []
+    ncase = 800 if quick else 5000
+    struct_bad, perm_bad = [], []
+    sreqs, simpl = [], []        # float correspondence (refinement-loop spectrum)
     for c in range(ncase):
-        kind, data = gen_data(rng, nprng, quick)
+        kind, data, tags = gen_data(rng, nprng, quick,
+                                    kinds=("int", "dyadic", "float", "float", "periodic",
+                                           "constant", "two-level"))
         N, n = data.shape
         seed = sub_seed()
         ctx.count(f"data:{kind}")
+        for t in tags:
+            ctx.count("caller-array:" + t.split(":")[0])
         ctx.count("len:" + ("1" if n == 1 else "2" if n == 2 else "odd" if n % 2 else "even"))
         nontriv = n >= 4
+        exact_ok = "scaled:2^300" not in tags and "scaled:2^-300" not in tags or rng.random() < 0.3
         # ---- white noise ---------------------------------------------------
         rp_, np_ = NpRandomProxy(seed), NpProxy()
-        s = Surrogates(data.copy(), silence_level=3)
+        s = Surrogates(clone(data), silence_level=3)
         ncalls = rng.choice([1, 2, 3])
-        rep = {"data": data.tolist(), "numpy_RandomState_seed": seed}
+        rep = {"data": data.tolist(), "dtype": str(data.dtype), "layout": tags,
+               "numpy_RandomState_seed": seed}
         with guarded(ctx, "white_noise_surrogates", rep), patched(SM, random=rp_, np=np_):
             for call in range(ncalls):
                 rp_.perms = []
                 out = s.white_noise_surrogates()
-                reqs.append(f"white {enc_mat(data)} {enc_imat(rp_.perms)}")
-                impl.append(enc_mat(out))
+                for i, pm in enumerate(rp_.perms):
+                    if sorted(pm) != list(range(n)):
+                        perm_bad.append(f"row {i}: {pm[:12]}")
+                if exact_ok:
+                    reqs.append(f"white {enc_mat(data)} {enc_imat(rp_.perms)}")
+                    impl.append(enc_mat(out))
         ctx.case(("white", data.tobytes().hex(), seed, ncalls), nontriv,
                  {"generator": "white_noise", "data": data.tolist(), "calls": ncalls} if n <= 5 else None)
         ctx.count("gen:white_noise", ncalls)
-        # ---- Fourier: spectra handed to irfft over a call history ------------
+        # ---- Fourier: spectra handed to irfft over a call history, the documented mutator
+        #      normalize_original_data() possibly in between ------------------------------
         rp_, np_ = NpRandomProxy(seed), NpProxy()
-        s = Surrogates(data.copy(), silence_level=3)
+        s = Surrogates(clone(data), silence_level=3)
         ncalls = rng.choice([1, 2, 3, 4])
-        with guarded(ctx, "correlated_noise_surrogates", dict(rep, calls=ncalls)), \
-                patched(SM, random=rp_, np=np_):
-            for call in range(ncalls):
+        floaty = data.dtype.kind == "f"
+        hist = []
+        for call in range(ncalls):
+            if floaty and rng.random() < 0.2:
+                hist.append("normalize")
+            hist.append("fourier")
+        segs = []      # (cache index, [phase index ...]) per memoised FFT
+        with guarded(ctx, "correlated_noise_surrogates", dict(rep, history=hist)), \
+                patched(SM, random=rp_, np=np_), np.errstate(all="ignore"):
+            for h in hist:
+                if h == "normalize":
+                    with quiet():
+                        s.normalize_original_data()
+                    ctx.count("gen:normalize-in-history")
+                    continue
+                before = len(np_.fft.rfft_out)
                 s.correlated_noise_surrogates()
-        if len(np_.fft.rfft_out) != 1 or len(np_.fft.irfft_in) != ncalls:
-            struct_bad.append(f"correlated_noise_surrogates x{ncalls}: rfft calls="
-                              f"{len(np_.fft.rfft_out)} irfft calls={len(np_.fft.irfft_in)}")
+                if len(np_.fft.rfft_out) > before or not segs:
+                    segs.append((len(np_.fft.rfft_out) - 1, []))
+                segs[-1][1].append(len(np_.fft.irfft_in) - 1)
+                # the memoised FFT must be the FFT of the data the object holds now
+                # (up to the tolerance of the spectrum clause: normalising normalised data again
+                # moves it by rounding errors only and is not a new normalisation state)
+                if np_.fft.rfft_in and not close_rows(np_.fft.rfft_in[-1], s.original_data,
+                                                      tol_for(data)):
+                    ctx.fail({"kind": "stale-fft-cache", "method": "correlated_noise_surrogates"},
+                             "correlated_noise_surrogates used a memoised FFT of data the object "
+                             "no longer holds", dict(rep, history=hist))
+        exp_rfft = len({x for x in _norm_states(hist)})
+        if len(np_.fft.rfft_out) != exp_rfft or len(np_.fft.irfft_in) != ncalls or \
+                sum(len(x[1]) for x in segs) != ncalls:
+            struct_bad.append(f"correlated_noise_surrogates history {hist}: rfft calls="
+                              f"{len(np_.fft.rfft_out)} (expected {exp_rfft}) irfft calls="
+                              f"{len(np_.fft.irfft_in)}")
         else:
-            cache = np_.fft.rfft_out[0]
-            for i in range(N):
-                ph = [rp_.phases[k][i] for k in range(ncalls)]
-                freqs.append(f"fourier {mode} {enc_vec(cache[i].real)} {enc_vec(cache[i].imag)} "
-                             f"{enc_mat(ph)}")
-                fimpl.append([np_.fft.irfft_in[k][i] for k in range(ncalls)])
-        ctx.case(("fourier", data.tobytes().hex(), seed, ncalls), nontriv)
+            for ci, calls in segs:
+                cache = np_.fft.rfft_out[ci]
+                if not np.isfinite(cache).all():
+                    continue
+                for i in range(N):
+                    ph = [rp_.phases[k][i] for k in calls]
+                    freqs.append(f"fourier {mode} {enc_vec(cache[i].real)} {enc_vec(cache[i].imag)} "
+                                 f"{enc_mat(ph)}")
+                    fimpl.append(([np_.fft.irfft_in[k][i] for k in calls], tol_for(cache.real)))
+        ctx.case(("fourier", data.tobytes().hex(), seed, tuple(hist)), nontriv)
         ctx.count("gen:correlated_noise", ncalls)
         # ---- AAFT / refined AAFT -------------------------------------------
         rp_, np_ = NpRandomProxy(seed), NpProxy()
-        s = Surrogates(data.copy(), silence_level=3)
-        nit = rng.choice([0, 1, 2, 3])
+        s = Surrogates(clone(data), silence_level=3)
+        nit = rng.choice([0, 1, 2, 3] if quick else [0, 1, 2, 3, 5, 8])
         with guarded(ctx, "AAFT_surrogates/refined_AAFT_surrogates", dict(rep, n_iterations=nit)), \
-                patched(SM, random=rp_, np=np_):
-            if rng.random() < 0.4:
+                patched(SM, random=rp_, np=np_), np.errstate(all="ignore"):
+            pre = rng.random() < 0.4
+            if pre:
                 s.correlated_noise_surrogates()     # a history before the call
-                np_.fft.irfft_out = []
+                np_.fft.irfft_out, np_.fft.rfft_in, np_.fft.rfft_out = [], [], []
+                rp_.gauss = []
             if rng.random() < 0.5:
                 R = s.AAFT_surrogates()
                 outs = np_.fft.irfft_out
                 tie = any(has_ties(o) for o in outs)
-                if not tie and len(outs) == 1:
-                    reqs.append(f"aaft {enc_mat(data)} {enc_mat(outs[0])}")
-                    impl.append(enc_mat(R))
-                    ctx.count("gen:AAFT")
-                elif len(outs) != 1:
-                    struct_bad.append(f"AAFT_surrogates: {len(outs)} irfft calls")
+                if len(outs) != 1 or len(rp_.gauss) != 1 or len(np_.fft.rfft_in) != 1:
+                    struct_bad.append(f"AAFT_surrogates: {len(outs)} irfft calls, "
+                                      f"{len(np_.fft.rfft_in)} rfft calls")
                 else:
-                    ctx.count("skipped-for-correspondence:ranked-array-has-ties")
+                    if not tie and exact_ok:
+                        reqs.append(f"aaft {enc_mat(data)} {enc_mat(outs[0])}")
+                        impl.append(enc_mat(R))
+                        ctx.count("gen:AAFT")
+                    else:
+                        ctx.count("skipped-for-correspondence:ranked-array-has-ties")
+                    # first stage: the Gaussian reference in the rank order of the data is what
+                    # the inner Surrogates object transforms
+                    if not has_ties(data) and not has_ties(rp_.gauss[0]) and exact_ok:
+                        reqs.append(f"rescaled {enc_mat(data)} {enc_mat(rp_.gauss[0])}")
+                        impl.append(enc_mat(np_.fft.rfft_in[-1]))
+                        ctx.count("gen:AAFT-first-stage")
             else:
-                R = s.refined_AAFT_surrogates(nit, output="true_amplitudes")
+                R, sp = s.refined_AAFT_surrogates(nit, output="both") if nit else \
+                    (s.refined_AAFT_surrogates(nit, output="true_amplitudes"), None)
                 outs = np_.fft.irfft_out
-                if len(outs) != nit + 1:
-                    struct_bad.append(f"refined_AAFT_surrogates: {len(outs)} irfft calls for "
-                                      f"n_iterations={nit}")
-                elif any(has_ties(o) or np.isnan(o).any() for o in outs):
-                    ctx.count("skipped-for-correspondence:ranked-array-has-ties")
+                rin, rout = np_.fft.rfft_in, np_.fft.rfft_out
+                if len(outs) != nit + 1 or len(rout) != nit + 1 + (not pre):
+                    struct_bad.append(f"refined_AAFT_surrogates: {len(outs)} irfft / {len(rout)} rfft "
+                                      f"calls for n_iterations={nit}")
                 else:
-                    reqs.append(f"refined {enc_mat(data)} {enc_mat(outs[0])} {enc_mats(outs[1:])}")
-                    impl.append(enc_mat(R))
-                    ctx.count(f"gen:refined_AAFT:n_iterations={nit}")
+                    if any(has_ties(o) or np.isnan(o).any() for o in outs) or not exact_ok:
+                        ctx.count("skipped-for-correspondence:ranked-array-has-ties")
+                    else:
+                        reqs.append(f"refined {enc_mat(data)} {enc_mat(outs[0])} {enc_mats(outs[1:])}")
+                        impl.append(enc_mat(R))
+                        ctx.count(f"gen:refined_AAFT:n_iterations={nit}")
+                    # the refinement loop's spectrum: amps * exp(1j*angle(rfft(R))) handed to irfft
+                    cache = s.original_data_fft()
+                    if nit and np.isfinite(cache).all() and data.dtype != np.float32:
+                        for it in range(nit):
+                            rf = rout[len(rout) - nit + it]
+                            zin = np_.fft.irfft_in[len(np_.fft.irfft_in) - nit + it]
+                            if not np.isfinite(rf).all():
+                                continue
+                            for i in range(N):
+                                sreqs.append(f"specin {enc_vec(cache[i].real)} {enc_vec(cache[i].imag)} "
+                                             f"{enc_vec(rf[i].real)} {enc_vec(rf[i].imag)}")
+                                simpl.append(([zin[i]], TOL))
+                        ctx.count("gen:refinement-spectrum", nit)
         ctx.case(("aaft", data.tobytes().hex(), seed, nit), nontriv)
+    ctx.obligation("hypothesis of shuffle_perm: every shuffle numpy applied is a permutation of the "
+                   "index range", "correspondence", not perm_bad, "\n".join(perm_bad[:5]))
 
     # ======================================================================
     # D: twins of Surrogates — kernels and method, fed draw stream
     # ======================================================================
-    ntw = 300 if quick else 3000
+    ntw = 600 if quick else 5000
     tw_cases = []
     for c in range(ntw):
-        kind, data = gen_data(rng, nprng, quick, kinds=("int", "dyadic", "periodic", "periodic"))
+        kind, data, tags = gen_data(rng, nprng, quick,
+                                    kinds=("int", "dyadic", "periodic", "periodic", "two-level",
+                                           "constant"))
+        scale_e = 0
+        for t in tags:
+            if t.startswith("scaled:2^"):
+                scale_e = int(t[len("scaled:2^"):])
+        if abs(scale_e) > 100:      # thresholds reach the kernel as C float
+            data = clone(np.asarray(data, dtype=np.float64)) \
+                * 2.0 ** (-scale_e + (30 if scale_e > 0 else -30))
+            scale_e = 30 if scale_e > 0 else -30
         N, n = data.shape
         hist = []
         for call in range(rng.choice([1, 1, 2, 3])):
-            dim = rng.choice([1, 1, 2, 2, 3])
-            delay = rng.choice([0, 1, 1, 2, 3])
+            dim = rng.choice([1, 1, 2, 2, 3, 4, 5])
+            delay = rng.choice([0, 1, 1, 2, 3, 6])
             if (dim - 1) * delay > n:
+                if rng.random() < 0.15:
+                    hist.append((dim, delay, Fraction(1, 2), 0))   # outside the domain: ValueError
+                    continue
                 dim, delay = 1, 0
-            thr = Fraction(rng.choice([0, 1, 1, 2, 4, 4, 8, 12, 16, 24]), 8)
-            md = rng.choice([0, 0, 1, 1, 2, 3, 5, 7, 8])
+            thr = Fraction(rng.choice([0, 1, 1, 2, 4, 4, 8, 12, 16, 24, 64, 2 ** 20]), 8) \
+                * Fraction(2) ** scale_e
+            md = rng.choice([0, 0, 1, 1, 2, 3, 5, 7, 8, None, n, n + 3, 40])
             hist.append((dim, delay, thr, md))
-        tw_cases.append((kind, data, hist))
-    for kind, data, hist in tw_cases:
+        tw_cases.append((kind, data, tags, hist))
+    for kind, data, tags, hist in tw_cases:
         N, n = data.shape
-        s = Surrogates(data.copy(), silence_level=3)
+        s = Surrogates(clone(data), silence_level=3)
+        for t in tags:
+            ctx.count("twins-caller-array:" + t.split(":")[0])
         for (dim, delay, thr, md) in hist:
             nT = n - (dim - 1) * delay
+            md_eff = 7 if md is None else md
             draws = [Fraction(rng.choice([0, 2 ** 20 - 1, rng.randrange(2 ** 20),
                                           rng.randrange(2 ** 20)]), 2 ** 20)
-                     for _ in range(N * (2 * nT + 3) + 4)]
+                     for _ in range(N * (2 * max(nT, 0) + 3) + 4)]
             dp = DrawProxy(draws)
             with patched(K, random=dp), quiet():
                 try:
-                    out = s.twin_surrogates(dim, delay, float(thr), md)
+                    out = s.twin_surrogates(dim, delay, float(thr)) if md is None else \
+                        s.twin_surrogates(dim, delay, float(thr), md)
                     got = enc_mat(out)
-                    tw = s.twins(float(thr), md)     # cached
+                    tw = s.twins(float(thr)) if md is None else s.twins(float(thr), md)  # cached
                     emb = s.embedding
                 except Exception as e:  # noqa
                     got, tw, emb = "raise:" + type(e).__name__, None, None
-            reqs.append(f"twinsurr {dim} {delay} {enc_num(thr)} {md} {enc_vec(draws)} {enc_mat(data)}")
-            impl.append(got)
+            gseed = rng.randrange(1000)
+            reqs.append(f"twinsurr_k {dim} {delay} {enc_num(thr)} {md_eff} {gseed} {enc_vec(draws)} "
+                        f"{enc_mat(data)}")
+            impl.append("raise:IndexError" if got == "raise:ValueError" else got)
+            if rng.random() < 0.25:
+                reqs.append(f"twinsurr {dim} {delay} {enc_num(thr)} {md_eff} {enc_vec(draws)} "
+                            f"{enc_mat(data)}")
+                impl.append("raise:IndexError" if got == "raise:ValueError" else got)
+            # the embedding wrapper at its own boundary
+            reqs.append(f"embed_k {dim} {delay} {enc_vec(data[0])}")
+            try:
+                with quiet():
+                    e0 = Surrogates.embed_time_series_array(data, dim, delay)
+                impl.append(enc_mat(e0[0]) if e0.shape[1] else "E")
+            except Exception as e:  # noqa
+                impl.append("raise:" + type(e).__name__)
             npairs = 0
             if tw is not None:
                 for i in range(N):
-                    reqs.append(f"twins_s {enc_num(thr)} {md} {enc_mat(emb[i])}")
+                    reqs.append(f"twins_s {enc_num(thr)} {md_eff} {enc_mat(emb[i])}")
                     impl.append(enc_imat(tw[i]))
                     npairs += sum(len(x) for x in tw[i])
+                # the twin kernel at its own boundary: work arrays of arbitrary content, all
+                # series in one call; its lists and the work arrays it leaves behind
+                R0 = np.array([[rng.randrange(2) for _ in range(nT)] for _ in range(nT)],
+                              dtype=np.int8).reshape(nT, nT)
+                nR0 = np.array([rng.randrange(-3, 40) for _ in range(nT)], dtype=np.int16)
+                reqs.append(f"twins_k {enc_num(thr)} {md_eff} {enc_mats(emb)} {enc_imat(R0)} "
+                            f"{enc_ivec(nR0)}")
+                try:
+                    tk = []
+                    Rw, nRw = R0.copy(), nR0.copy()
+                    K._twins_s(N, nT, dim, float(thr), md_eff, np.ascontiguousarray(emb), Rw, nRw, tk)
+                    impl.append(enc_mats(tk, enc_imat) + "#" + enc_imat(Rw) + "#" + enc_ivec(nRw))
+                except Exception as e:  # noqa
+                    impl.append("raise:" + type(e).__name__)
+                ctx.count("gen:_twins_s-on-arbitrary-work-arrays")
                 # the walk kernel at its own boundary, on the same tables
                 dp2 = DrawProxy(draws)
                 reqs.append(f"walk_s {nT} {enc_vec(draws)} {enc_mats(tw, enc_imat)}")
                 try:
                     with patched(K, random=dp2):
-                        o2 = K._twin_surrogates_s(N, nT, tw, np.ascontiguousarray(data))
+                        o2 = K._twin_surrogates_s(N, nT, tw,
+                                                  np.ascontiguousarray(data, dtype=np.float64))
                     impl.append(("walk", o2, data, dp2.used))
                 except Exception as e:  # noqa
                     impl.append("raise:" + type(e).__name__)
+            else:
+                ctx.count("twins:outside-domain-raises")
             ctx.case(("twin_s", data.tobytes().hex(), dim, delay, str(thr), md, enc_vec(draws[:8])),
                      nT >= 4 and npairs > 0,
                      {"generator": "twin_surrogates", "data": data.tolist(), "dimension": dim,
@@ -453,52 +724,48 @@ def run(ctx):
             ctx.count("gen:twin_surrogates")
             ctx.count("twins:" + ("some" if npairs else "none"))
             ctx.count(f"twins:dim={dim}")
-            ctx.count(f"twins:min_dist={'0' if md == 0 else '1-3' if md <= 3 else '>3'}")
+            ctx.count("twins:min_dist=" + ("default" if md is None else "0" if md == 0 else
+                                           "1-3" if md <= 3 else "4-8" if md <= 8 else ">8"))
 
     # ======================================================================
     # E: RecurrencePlot.twins / twin_surrogates
     # ======================================================================
-    nrp = 200 if quick else 2000
+    nrp = 400 if quick else 3000
     for c in range(nrp):
         n = rng.choice([2, 3, 5, 8, 9, 12, 16, 21] if quick else [2, 3, 5, 8, 9, 12, 16, 21, 32, 40])
-        kind = rng.choice(["int", "periodic", "dyadic"])
-        if kind == "periodic":
-            per = rng.choice([2, 3, 4])
-            base = [rng.randrange(0, 4) for _ in range(per)]
-            ts = np.array([base[t % per] for t in range(n)], dtype=float)
-        elif kind == "int":
-            ts = np.array([rng.randrange(0, 3) for _ in range(n)], dtype=float)
-        else:
-            ts = np.array([rng.randrange(0, 17) / 8 for _ in range(n)])
-        dim = rng.choice([1, 2, 2, 3])
-        tau = rng.choice([1, 1, 2])
-        if (dim - 1) * tau >= n:
-            dim, tau = 1, 1
-        thr = rng.choice([0.125, 0.5, 0.5, 1.0, 1.5])
-        md = rng.choice([0, 1, 1, 2, 3, 7])
-        ns = rng.choice([1, 2, 3])
-        variant = rng.choice(["threshold", "threshold", "local_recurrence_rate"])
-        with quiet():
-            if variant == "threshold":
-                rp = RecurrencePlot(ts, dim=dim, tau=tau, metric="supremum", threshold=thr,
-                                    silence_level=3)
-            else:
-                rp = RecurrencePlot(ts, dim=dim, tau=tau, metric="supremum",
-                                    local_recurrence_rate=rng.choice([0.2, 0.4, 0.6]),
-                                    silence_level=3)
+        ts, kind, dim, tau, kw, variant = gen_rp(rng, n)
+        md = rng.choice([0, 1, 1, 2, 3, 7, n + 2])
+        ns = rng.choice([1, 2, 3, 5])
+        form = rng.choice(["explicit", "explicit", "explicit", "defaults", "keyword"])
+        try:
+            with quiet():
+                rp = RecurrencePlot(ts, silence_level=3, **kw)
+        except Exception as e:  # noqa
+            ctx.fail({"kind": "raises", "class": "RecurrencePlot", "method": "__init__",
+                      "error": type(e).__name__},
+                     f"RecurrencePlot(...) raised {type(e).__name__}: {e}",
+                     {"time_series": ts.tolist(), **kw})
+            continue
         ctx.count(f"rp:{variant}")
+        ctx.count(f"rp:metric={kw['metric']}")
         ncalls = rng.choice([1, 2])
         for call in range(ncalls):
             R = np.array(rp.recurrence_matrix())
             NN = R.shape[0]
+            ns_eff = ns if form == "explicit" else 1
+            md_eff = 7 if form == "defaults" else md
             draws = [Fraction(rng.choice([0, 2 ** 20 - 1, rng.randrange(2 ** 20),
                                           rng.randrange(2 ** 20)]), 2 ** 20)
-                     for _ in range(ns * (2 * NN + 3) + 4)]
+                     for _ in range(ns_eff * (2 * NN + 3) + 4)]
             dp = DrawProxy(draws)
             try:
                 with patched(K, random=dp), quiet():
-                    tw = rp.twins(md)
-                    out = rp.twin_surrogates(ns, md)
+                    if form == "explicit":
+                        tw, out = rp.twins(md), rp.twin_surrogates(ns, md)
+                    elif form == "defaults":
+                        tw, out = rp.twins(), rp.twin_surrogates()
+                    else:
+                        tw, out = rp.twins(min_dist=md), rp.twin_surrogates(min_dist=md)
                 used = dp.used
                 err = None
             except Exception as e:  # noqa
@@ -507,25 +774,28 @@ def run(ctx):
                 ctx.fail({"kind": "raises", "class": "RecurrencePlot", "method": "twin_surrogates",
                           "error": type(err).__name__},
                          f"RecurrencePlot.twins/twin_surrogates raised {type(err).__name__}: {err}",
-                         {"time_series": ts.tolist(), "dim": dim, "tau": tau, "variant": variant,
-                          "threshold": thr, "min_dist": md, "n_surrogates": ns})
+                         {"time_series": ts.tolist(), **kw, "min_dist": md, "n_surrogates": ns})
                 continue
-            reqs.append(f"rp_twins {md} {enc_imat(R)}")
+            reqs.append(f"rp_twins_k {md_eff} {enc_imat(R)}")
             impl.append(enc_imat(tw))
-            reqs.append(f"walk_r {NN} {ns} {enc_vec(draws)} {enc_imat(tw[:NN])}")
+            if rng.random() < 0.3:
+                reqs.append(f"rp_twins {md_eff} {enc_imat(R)}")
+                impl.append(enc_imat(tw))
+            reqs.append(f"walk_r {NN} {ns_eff} {enc_vec(draws)} {enc_imat(tw[:NN])}")
             impl.append(("walk3", out, np.array(rp.embedding), used))
             npairs = sum(len(x) for x in tw)
-            ctx.case(("twin_r", ts.tobytes().hex(), dim, tau, thr, md, ns, variant, enc_vec(draws[:8])),
+            ctx.case(("twin_r", ts.tobytes().hex(), str(kw), md, ns, enc_vec(draws[:8])),
                      NN >= 4 and npairs > 0)
             ctx.count("gen:RecurrencePlot.twin_surrogates")
             ctx.count("rp-twins:" + ("some" if npairs else "none"))
+            ctx.count("rp-args:" + form)
 
     ctx.obligation("call structure: one memoised rfft and one irfft per correlated_noise_surrogates "
                    "call, one irfft per AAFT call and per refinement step", "correspondence",
                    not struct_bad, "\n".join(struct_bad[:5]))
     # ---------------- run the model, compare -------------------------------
     # walk requests carry implementation *values*; the model answers indices
-    model = common.driver("C15", reqs)
+    model = common.driver("C15", reqs) if HAVE_DRIVER else []
     bad = []
     for i, (rq, im, mo) in enumerate(zip(reqs, impl, model)):
         if isinstance(im, tuple):
@@ -546,7 +816,8 @@ def run(ctx):
                 _, o3, emb, used = im
                 ok = int(cons) == used and len(idx) == o3.shape[0] and \
                     all(len(idx[r]) == o3.shape[1] and
-                        all(np.array_equal(emb[idx[r][j]], o3[r, j]) for j in range(o3.shape[1]))
+                        all(np.array_equal(emb[idx[r][j]], o3[r, j], equal_nan=True)
+                            for j in range(o3.shape[1]))
                         for r in range(o3.shape[0]))
             if not ok:
                 bad.append((i, mo, f"impl used {used} draws"))
@@ -558,37 +829,92 @@ def run(ctx):
                              for i, m, x in bad[:5]))
     ctx.extra["requests_compared"] = len(reqs) + len(freqs)
 
-    # float correspondence of the phase multiplication
-    fmodel = common.driver("C15", freqs)
-    fbad = []
-    for i, (mo, im) in enumerate(zip(fmodel, fimpl)):
-        calls = mo.split(";") if mo else []
-        if len(calls) != len(im):
-            fbad.append((i, "call count"))
-            continue
-        for cstr, z in zip(calls, im):
-            vals = cstr.split(",") if cstr else []
-            if len(vals) != len(z):
-                fbad.append((i, "length"))
-                break
-            scale = max(1.0, float(np.abs(z).max()) if len(z) else 1.0)
-            for v, zz in zip(vals, z):
-                re_, im_ = v.split("_")
-
-                def dec(t):
-                    m, e = t.split(":")
-                    return float(Fraction(int(m)) * Fraction(2) ** int(e))
-                if abs(dec(re_) - zz.real) > TOL * scale or abs(dec(im_) - zz.imag) > TOL * scale:
-                    fbad.append((i, f"{v} vs {zz}"))
-                    break
+    ctx.extra["requests_compared"] += len(sreqs)
+    # float correspondence of the phase multiplication and of the refinement-loop spectrum
+    fbad = float_compare(freqs, fimpl)
     ctx.obligation(f"correspondence: phase multiplication history (mode={mode}) == spectra handed to "
-                   f"irfft ({len(freqs)} rows, tolerance {TOL})", "correspondence", not fbad,
+                   f"irfft ({len(freqs)} rows, relative tolerance {TOL})", "correspondence", not fbad,
                    "\n".join(f"{freqs[i][:300]} :: {w}" for i, w in fbad[:5]))
+    sbad = float_compare(sreqs, simpl)
+    ctx.obligation(f"correspondence: |cached FFT| * exp(1j*angle(rfft(R))) of the model == spectra the "
+                   f"refinement loop hands to irfft ({len(sreqs)} rows, relative tolerance {TOL})",
+                   "correspondence", not sbad,
+                   "\n".join(f"{sreqs[i][:300]} :: {w}" for i, w in sbad[:5]))
 
+    dft_pair_check(ctx, rng, nprng, quick)
     # ======================================================================
     # oracle on the unpatched code
     # ======================================================================
     oracle(ctx, Surrogates, RecurrencePlot, rng, nprng, quick)
+
+
+def float_compare(requests, impl):
+    """run `requests` through the driver (IEEE double model) and compare with the recorded
+    complex rows: `impl[i] = ([row per call], relative tolerance)`; returns the mismatches"""
+    model = common.driver("C15", requests) if HAVE_DRIVER else []
+    bad = []
+
+    def dec(t):
+        if t == "nan":
+            return float("nan")
+        m, e = t.split(":")
+        return float(Fraction(int(m)) * Fraction(2) ** int(e))
+    for i, (mo, (rows, tol)) in enumerate(zip(model, impl)):
+        calls = mo.split(";") if mo else []
+        if len(calls) != len(rows):
+            bad.append((i, "call count"))
+            continue
+        for cstr, z in zip(calls, rows):
+            vals = cstr.split(",") if cstr else []
+            if len(vals) != len(z):
+                bad.append((i, "length"))
+                break
+            scale = float(np.abs(z).max()) if len(z) else 0.0
+            for v, zz in zip(vals, z):
+                re_, im_ = v.split("_")
+                if not (abs(dec(re_) - zz.real) <= tol * scale and
+                        abs(dec(im_) - zz.imag) <= tol * scale):
+                    bad.append((i, f"{v} vs {zz}"))
+                    break
+    return bad
+
+
+def dft_pair_check(ctx, rng, nprng, quick):
+    """the trusted fact behind the spectrum theorems: numpy.fft.rfft / irfft(n=) are, up to
+    rounding, the pair `DFT.rfft` / `DFT.irfft` of Lemmas/SurrogatesDFT.lean — the documented sum
+    and the inverse DFT of the Hermitian extension that drops the imaginary parts of the DC and
+    Nyquist bins.  Compared with the explicit O(n^2) sums."""
+    bad, cnt = [], 0
+    for c in range(80 if quick else 600):
+        n = rng.choice([1, 2, 3, 4, 5, 6, 7, 8, 9, 12, 15, 16, 21, 32, 33])
+        x = nprng.randn(n) * 2.0 ** rng.choice([0, 0, -30, 30, 300])
+        t = np.arange(n)
+        m = n // 2 + 1
+        F = np.array([np.sum(x * np.exp(-2j * np.pi * t * f / n)) for f in range(m)])
+        G = np.fft.rfft(x)
+        sc = float(np.abs(F).max())
+        if G.shape != F.shape or not np.all(np.abs(F - G) <= TOL * sc):
+            bad.append(f"rfft n={n}")
+        Z = (nprng.randn(m) + 1j * nprng.randn(m)) * 2.0 ** rng.choice([0, -30, 30])
+        W = np.zeros(n, dtype=complex)
+        for k in range(n):
+            if 2 * k < n:
+                W[k] = Z[0].real if k == 0 else Z[k]
+            elif 2 * k == n:
+                W[k] = Z[k].real
+            else:
+                W[k] = np.conj(Z[n - k])
+        y = np.array([np.sum(W * np.exp(2j * np.pi * t * tt / n)) / n for tt in range(n)])
+        z = np.fft.irfft(Z, n=n)
+        sc = float(np.abs(y).max())
+        if z.shape != (n,) or not np.all(np.abs(y.real - z) <= TOL * sc) or \
+                not np.all(np.abs(y.imag) <= TOL * sc):
+            bad.append(f"irfft n={n}")
+        cnt += 1
+    ctx.obligation(f"numpy.fft.rfft / irfft(n=) == the DFT pair of Lemmas/SurrogatesDFT.lean (explicit "
+                   f"sums, {cnt} random arrays of length 1-33, relative tolerance {TOL})",
+                   "correspondence", not bad, ", ".join(bad[:8]))
+    ctx.count("dft-pair-arrays", cnt)
 
 
 def check_perm(ctx, name, out, data, replay):
@@ -607,12 +933,13 @@ def check_spectrum(ctx, name, out, data, replay, bins="inner"):
     if out.shape != data.shape:
         ctx.fail({"kind": "shape", "method": name}, f"{name}: shape {out.shape}", replay)
         return False
-    a0, a1 = amp(data), amp(out)
+    a0, a1 = amp(np.asarray(data, dtype=float)), amp(out)
     idx = list(inner_bins(n)) if bins == "inner" else list(range(a0.shape[1]))
+    tol = tol_for(data)
     for i in range(data.shape[0]):
-        scale = max(1.0, float(a0[i].max()))
+        scale = float(a0[i].max())      # relative to the largest amplitude of the series
         for f in idx:
-            if not abs(a0[i, f] - a1[i, f]) <= TOL * scale:
+            if not abs(a0[i, f] - a1[i, f]) <= tol * scale:
                 nan = bool(np.isnan(a1[i, f]))
                 ctx.fail({"kind": "amplitude-spectrum", "method": name, "nan": nan},
                          f"{name}: amplitude at frequency {f} of series {i} is {a1[i, f]}, "
@@ -622,34 +949,46 @@ def check_spectrum(ctx, name, out, data, replay, bins="inner"):
 
 
 def oracle(ctx, Surrogates, RecurrencePlot, rng, nprng, quick):
-    nor = 500 if quick else 5000
+    nor = 1000 if quick else 8000
     for c in range(nor):
-        kind, data = gen_data(rng, nprng, quick)
+        kind, data, tags = gen_data(rng, nprng, quick,
+                                    kinds=("int", "dyadic", "float", "float", "periodic",
+                                           "constant", "two-level"))
         if c == 0:
-            kind, data = "constant", np.full((2, 8), 1.5)
+            kind, data, tags = "constant", np.full((2, 8), 1.5), []
         if c == 1:
-            kind, data = "single", np.array([[2.0]])
+            kind, data, tags = "single", np.array([[2.0]]), []
+        if c == 2:
+            # the public test-data wrapper (6 series of length 200)
+            with quiet():
+                kind, data, tags = "SmallTestData", Surrogates.SmallTestData().original_data, []
         N, n = data.shape
+        for t in tags:
+            ctx.count("oracle-caller-array:" + t.split(":")[0])
         seed = rng.randrange(2 ** 31)
         np.random.seed(seed)
         pyrandom.seed(seed)
-        s = Surrogates(data.copy(), silence_level=3)
-        pristine = data.copy()
+        s = Surrogates(clone(data), silence_level=3)
+        pristine = np.array(data)
         hist = []
         for call in range(rng.choice([1, 2, 3, 4])):
-            g = rng.choice(["white", "fourier", "aaft", "refined", "refined_s", "twin", "normalize"])
+            g = rng.choice(["white", "fourier", "aaft", "refined", "refined_s", "twin", "twin",
+                            "normalize"])
+            if g == "normalize" and data.dtype.kind != "f":
+                g = "white"          # in-place normalisation is defined for float arrays
             hist.append(g)
             if g == "normalize":
                 # the documented mutator: from now on the guarantees refer to the normalised data
-                with quiet():
+                with quiet(), np.errstate(all="ignore"):
                     s.normalize_original_data()
                 pristine = s.original_data.copy()
                 ctx.count("oracle:normalize")
                 continue
-            rep = {"data": pristine.tolist(), "numpy_and_random_seed": seed, "history": list(hist)}
+            rep = {"data": pristine.tolist(), "dtype": str(data.dtype), "layout": tags,
+                   "numpy_and_random_seed": seed, "history": list(hist)}
             ctx.count(f"oracle:{g}")
             try:
-                with quiet():
+                with quiet(), np.errstate(all="ignore"):
                     if g == "white":
                         check_perm(ctx, "white_noise_surrogates", s.white_noise_surrogates(),
                                    pristine, rep)
@@ -683,17 +1022,61 @@ def oracle(ctx, Surrogates, RecurrencePlot, rng, nprng, quick):
                                           sp, pristine, rep, bins="all"):
                             pass
                     else:
-                        dim = rng.choice([1, 2, 3])
-                        delay = rng.choice([0, 1, 2])
+                        dim = rng.choice([1, 2, 3, 4])
+                        delay = rng.choice([0, 1, 2, 4])
                         if (dim - 1) * delay > n:
                             dim, delay = 1, 0
-                        thr = rng.choice([0.0, 0.125, 0.5, 1.0, 2.0, 0.3, 0.7])
-                        md = rng.choice([0, 1, 2, 7])
+                        thr = rng.choice([0.0, 0.125, 0.5, 1.0, 2.0, 0.3, 0.7, 1e6])
+                        md = rng.choice([0, 1, 2, 7, None, n + 3])
+                        md_eff = 7 if md is None else md
+                        kwa = {} if md is None else {"min_dist": md}
                         rep.update(dimension=dim, delay=delay, threshold=thr, min_dist=md)
-                        out = s.twin_surrogates(dim, delay, thr, md)
-                        tw = s.twins(thr, md)
-                        check_twin_surrogates(ctx, "Surrogates", out, tw, pristine, dim, delay,
-                                              thr, md, rep)
+                        path = rng.choice(["method", "method", "wrappers", "scaled"])
+                        ctx.count(f"oracle:twin:{path}")
+                        if path == "wrappers":
+                            # the public pieces one by one: static embedding, the embedding setter,
+                            # twins(), the static recurrence plot; then a second embedding on the
+                            # same object, which twins() must follow
+                            for (d2, l2) in [(dim, delay), (1, 0)]:
+                                emb = Surrogates.embed_time_series_array(s.original_data, d2, l2)
+                                s.embedding = emb
+                                tw = s.twins(thr, **kwa)
+                                rep.update(dimension=d2, delay=l2, path="embedding setter + twins()")
+                                check_twins(ctx, "Surrogates", tw, pristine, d2, l2, thr, md_eff, rep)
+                                nT = n - (d2 - 1) * l2
+                                for i in range(N):
+                                    Rm = Surrogates.recurrence_plot(emb[i], thr)
+                                    Rb = brute_R(np.asarray(emb[i], dtype=float).reshape(nT, d2),
+                                                 float(np.float32(thr)))
+                                    if not np.array_equal(np.asarray(Rm).astype(bool), Rb):
+                                        ctx.fail({"kind": "recurrence-plot", "class": "Surrogates"},
+                                                 "Surrogates.recurrence_plot differs from the supremum-"
+                                                 "norm definition", dict(rep, series=i))
+                                        break
+                        else:
+                            out = s.twin_surrogates(dim, delay, thr, **kwa)
+                            tw = s.twins(thr, **kwa)
+                            check_twin_surrogates(ctx, "Surrogates", out, tw, pristine, dim, delay,
+                                                  thr, md_eff, rep)
+                            if path == "scaled" and data.dtype == np.float64:
+                                # exact power-of-two rescaling of data and threshold: same twins,
+                                # and with the same random stream the rescaled surrogate
+                                e = rng.choice([-100, -30, 30, 100])
+                                big = float(np.abs(pristine).max()) if pristine.size else 0.0
+                                if big < 2.0 ** 20 and (big == 0 or
+                                                        float(np.abs(pristine[pristine != 0]).min())
+                                                        > 2.0 ** -20) and thr < 1e5:
+                                    s2 = Surrogates(pristine * 2.0 ** e, silence_level=3)
+                                    pyrandom.seed(seed + 1)
+                                    o1 = s.twin_surrogates(dim, delay, thr, **kwa)
+                                    pyrandom.seed(seed + 1)
+                                    o2 = s2.twin_surrogates(dim, delay, thr * 2.0 ** e, **kwa)
+                                    t2 = s2.twins(thr * 2.0 ** e, **kwa)
+                                    if t2 != tw or not np.array_equal(o1 * 2.0 ** e, o2):
+                                        ctx.fail({"kind": "twins-not-scale-invariant", "class": "Surrogates"},
+                                                 f"rescaling data and threshold by 2^{e} changes the twins "
+                                                 "or the surrogate drawn with the same random stream",
+                                                 dict(rep, exponent=e))
             except Exception as e:  # noqa
                 ctx.fail({"kind": "raises", "method": g, "error": type(e).__name__},
                          f"{g} raised {type(e).__name__}: {e}", rep)
@@ -704,35 +1087,21 @@ def oracle(ctx, Surrogates, RecurrencePlot, rng, nprng, quick):
         ctx.case(("oracle", data.tobytes().hex(), seed, tuple(hist)), n >= 4)
 
     # ---- RecurrencePlot twins on the unpatched code ---------------------------
-    nrp = 200 if quick else 2000
+    nrp = 400 if quick else 3000
     for c in range(nrp):
         n = rng.choice([2, 3, 5, 8, 13, 21, 30])
-        kind = rng.choice(["periodic", "int", "float"])
-        if kind == "periodic":
-            per = rng.choice([2, 3, 4, 5])
-            base = [rng.randrange(0, 4) for _ in range(per)]
-            ts = np.array([base[t % per] for t in range(n)], dtype=float)
-        elif kind == "int":
-            ts = np.array([rng.randrange(0, 3) for _ in range(n)], dtype=float)
-        else:
-            ts = nprng.rand(n)
-        dim = rng.choice([1, 2, 3])
-        tau = rng.choice([1, 2])
-        if (dim - 1) * tau >= n:
-            dim, tau = 1, 1
-        md = rng.choice([0, 1, 2, 7])
+        ts, kind, dim, tau, kw, variant = gen_rp(rng, n, floats=nprng)
+        md = rng.choice([0, 1, 2, 7, n + 1])
         ns = rng.choice([1, 2, 3])
-        variant = rng.choice(["threshold", "recurrence_rate", "local_recurrence_rate"])
-        kw = {"threshold": rng.choice([0.125, 0.5, 1.0])} if variant == "threshold" else \
-            {variant: rng.choice([0.2, 0.4, 0.6])}
         seed = rng.randrange(2 ** 31)
         pyrandom.seed(seed)
-        rep = {"time_series": ts.tolist(), "dim": dim, "tau": tau, "min_dist": md,
-               "n_surrogates": ns, "metric": "supremum", **kw}
+        rep = {"time_series": ts.tolist(), "dtype": str(ts.dtype), "min_dist": md,
+               "n_surrogates": ns, **kw}
         ctx.count(f"oracle:rp:{variant}")
+        ctx.count(f"oracle:rp:metric={kw['metric']}")
         try:
-            with quiet():
-                rp = RecurrencePlot(ts, dim=dim, tau=tau, metric="supremum", silence_level=3, **kw)
+            with quiet(), np.errstate(all="ignore"):
+                rp = RecurrencePlot(ts, silence_level=3, **kw)
                 for call in range(rng.choice([1, 2, 3])):
                     R = np.array(rp.recurrence_matrix()).astype(bool)
                     NN = R.shape[0]
@@ -760,17 +1129,20 @@ def oracle(ctx, Surrogates, RecurrencePlot, rng, nprng, quick):
             ctx.fail({"kind": "raises", "class": "RecurrencePlot", "method": "twin_surrogates",
                       "error": type(e).__name__},
                      f"RecurrencePlot.twins/twin_surrogates raised {type(e).__name__}: {e}", rep)
-        ctx.case(("oracle-rp", ts.tobytes().hex(), dim, tau, md, ns, str(kw), seed), n >= 5)
+        ctx.case(("oracle-rp", ts.tobytes().hex(), md, ns, str(kw), seed), n >= 5)
 
 
-def check_twin_surrogates(ctx, cls, out, tw, data, dim, delay, thr, md, rep):
+def check_twins(ctx, cls, tw, data, dim, delay, thr, md, rep):
+    """twins() against the definition on a brute-force recurrence matrix; returns the expected
+    lists per series, or None after reporting"""
+    data = np.asarray(data, dtype=float)
     N, n = data.shape
     nT = n - (dim - 1) * delay
-    out = np.asarray(out)
-    if out.shape != (N, nT):
-        ctx.fail({"kind": "shape", "method": "twin_surrogates"}, f"shape {out.shape}", rep)
-        return
     thr32 = float(np.float32(thr))
+    exps = []
+    if len(tw) != N:
+        ctx.fail({"kind": "shape", "method": "twins"}, f"{len(tw)} twin tables for {N} series", rep)
+        return None
     for i in range(N):
         emb = np.array([[data[i, k + l * delay] for l in range(dim)] for k in range(nT)]) \
             .reshape(nT, dim)
@@ -781,7 +1153,23 @@ def check_twin_surrogates(ctx, cls, out, tw, data, dim, delay, thr, md, rep):
                      "Surrogates.twins differs from: separated by more than min_dist, identical "
                      "recurrence neighbourhoods, more than one neighbour",
                      dict(rep, series=i, expected=exp, observed=tw[i]))
-            return
+            return None
+        exps.append((emb, exp))
+    return exps
+
+
+def check_twin_surrogates(ctx, cls, out, tw, data, dim, delay, thr, md, rep):
+    data = np.asarray(data, dtype=float)
+    N, n = data.shape
+    nT = n - (dim - 1) * delay
+    out = np.asarray(out)
+    if out.shape != (N, nT):
+        ctx.fail({"kind": "shape", "method": "twin_surrogates"}, f"shape {out.shape}", rep)
+        return
+    exps = check_twins(ctx, cls, tw, data, dim, delay, thr, md, rep)
+    if exps is None:
+        return
+    for i, (emb, exp) in enumerate(exps):
         ok, j = trajectory_ok(out[i].reshape(-1, 1), emb[:, :1], exp, nT)
         if not ok:
             ctx.fail({"kind": "twin-walk", "class": cls},
